@@ -30,8 +30,13 @@ fn install_panic_hook() {
       .map(|l| format!("{}:{}", l.file(), l.line()))
       .unwrap_or_default();
     report::LAST_PANIC_LOCATION.with(|c| *c.borrow_mut() = loc.clone());
-    if verbose {
+    // a panic outside report::catch is the harness's own (or an un-monitored
+    // query's) and ends the shard: always say where
+    if verbose || report::CATCH_DEPTH.with(|c| c.get()) == 0 {
       eprintln!("panic at {loc}: {}", report::payload_message(info.payload()));
+      if std::env::var_os("VERIF_BACKTRACE").is_some() {
+        eprintln!("{}", std::backtrace::Backtrace::force_capture());
+      }
     }
   }));
 }
